@@ -828,8 +828,13 @@ func TestVerifC06(t *testing.T) {
 
 	rng := rand.New(rand.NewSource(seed*7919 + 17))
 	scs := c06Fixed()
+	srng := rand.New(rand.NewSource(seed*15485863 + 11))
 	for i := 0; i < nrand; i++ {
-		scs = append(scs, c06Random(rng, i%2 == 0))
+		sc := c06Random(rng, i%2 == 0)
+		if (i/2)%2 == 1 { // half of the random graphs: files spread over directories, every load statement spelled at random
+			sc = c06RandomSpelled(srng, sc)
+		}
+		scs = append(scs, sc)
 	}
 	scs = append(scs, c06Faulty()...)
 	frng := rand.New(rand.NewSource(seed*104729 + 5))
@@ -845,10 +850,6 @@ func TestVerifC06(t *testing.T) {
 	wideMax, _ := strconv.Atoi(os.Getenv("VERIF_WIDE_MAX"))
 	scs = append(scs, c06Scale(sizes, wideMax)...)
 	scs = append(scs, c06Spelled()...)
-	srng := rand.New(rand.NewSource(seed*15485863 + 11))
-	for i := 0; i < nrand/4; i++ {
-		scs = append(scs, c06RandomSpelled(srng))
-	}
 	id := 0
 	hangs := 0
 	for i := range scs {
